@@ -76,7 +76,7 @@ def Shape (cfg : Cfg) (closed : Bool) (c : Cli) : Prop :=
   | _ => False
 
 def COk (cfg : Cfg) (closed : Bool) (c : Cli) : Prop :=
-  c.partSent = false ∧ c.cred ≠ .silent ∧ Shape cfg closed c
+  (c.partSent = false ∧ c.slowHook = false) ∧ c.cred ≠ .silent ∧ Shape cfg closed c
 
 theorem COk.default (cfg : Cfg) (closed : Bool) : COk cfg closed {} := by
   simp [COk, Shape, Free]
@@ -741,6 +741,8 @@ theorem GOk.accept_oneshot {s : St} (h : GOk s) (k : Nat) (cred : Cred) (ids : L
 def Op.c17 : Op → Bool
   | .connect _ c => c != .silent
   | .creds _ _ => false
+  | .connectReuse _ _ => false
+  | .releaseHook _ => false
   | .call _ _ => true
   | .raw _ _ => false
   | .gracefulClose _ => true
@@ -838,6 +840,8 @@ theorem GOk.step {s s' : St} {o : Obs} (h : GOk s) (op : Op) (hop : op.c17 = tru
     exact h.connect k cred (by simpa [Op.c17] using hop) hs
   | raw k items => simp [Op.c17] at hop
   | creds k c => simp [Op.c17] at hop
+  | connectReuse k j => simp [Op.c17] at hop
+  | releaseHook k => simp [Op.c17] at hop
   | call k r =>
     unfold Srv.step at hs
     by_cases hu : usable s k = true
